@@ -1733,7 +1733,7 @@ __archive_read_filter_seek(struct archive_read_filter *filter, int64_t offset,
 			if (client->dataset[cursor].begin_position < 0 ||
 			    client->dataset[cursor].total_size < 0 ||
 			    client->dataset[cursor].begin_position +
-			      client->dataset[cursor].total_size - 1 > offset ||
+			      client->dataset[cursor].total_size > offset ||
 			    cursor + 1 >= client->nodes)
 				break;
 			r = client->dataset[cursor].begin_position +
@@ -1748,7 +1748,7 @@ __archive_read_filter_seek(struct archive_read_filter *filter, int64_t offset,
 				return r;
 			client->dataset[cursor].total_size = r;
 			if (client->dataset[cursor].begin_position +
-			    client->dataset[cursor].total_size - 1 > offset ||
+			    client->dataset[cursor].total_size > offset ||
 			    cursor + 1 >= client->nodes)
 				break;
 			r = client->dataset[cursor].begin_position +
